@@ -161,7 +161,10 @@ def faults_at(root, path):
     if isinstance(node, list) and node:
         res.append(('set', []))
     if isinstance(node, int) and not isinstance(node, bool):
-        for alt in (-1, 2 ** 40, 1.0, True):
+        for alt in (-1, 2 ** 40, 1.0, True,
+                    # strings that look more or less like integers
+                    '5', '-3', '+3', '--3', '+-5', '-+1', '++2', '\u00b2', '\u2460', '\uff11\uff12', ' 1', '1 ', '1.0', '1e3',
+                    '0x10', '1_000', '-', '+', '9' * 5000, [1], {'value': 1}):
             res.append(('set', alt))
     return res
 
